@@ -1,6 +1,7 @@
 package main
 
 import (
+	"encoding/json"
 	"flag"
 	"fmt"
 	"os"
@@ -65,6 +66,23 @@ func main() {
 				fmt.Printf("%s loop %d: head block %d (%s) %s:%d, %d blocks\n", k, l.Ordinal, l.Head.Index, l.Head.Comment, shortFile(p.Filename), p.Line, len(l.Body))
 			}
 		}
+	case "props":
+		S, err := loadSpecs()
+		must(err)
+		out := map[string][]string{}
+		for k, c := range S.Contracts {
+			if c.Trusted || c.Unverified {
+				continue
+			}
+			for p := range c.Props {
+				out[p] = append(out[p], k)
+			}
+		}
+		for _, v := range out {
+			sort.Strings(v)
+		}
+		data, _ := json.MarshalIndent(out, "", " ")
+		fmt.Println(string(data))
 	case "sweep":
 		P, err := LoadProgram(repoDir)
 		must(err)
